@@ -100,6 +100,7 @@ def generate(package="numeric", spec_dir="specs"):
         classes = {n.name: n for n in tree.body if isinstance(n, ast.ClassDef)}
         texts = {"real": [], "float": []}
         prelude = False
+        cprelude = False
         for sp in specs:
             if "table" in sp:          # class holding a literal table  name -> tuple of numbers
                 key = f"{mod}.{sp['table']}"
@@ -117,7 +118,8 @@ def generate(package="numeric", spec_dir="specs"):
                     report["refused"][key] = str(e)
                 continue
             name = sp["name"]
-            lname = sp.get("as", name)
+            # spec["variant"] (with "complex_params"): a second translation `<name>_<variant>` of the same function
+            lname = sp.get("as", name + "_" + sp["variant"] if sp.get("variant") else name)
             key = f"{mod}.{lname}"
             if name not in fns:
                 report["refused"][key] = "function not found"
@@ -141,6 +143,7 @@ def generate(package="numeric", spec_dir="specs"):
                     used_constants.update(tr.used_constants)
                     report["notes"][key] = notes
                     prelude = prelude or tr.uses_while
+                    cprelude = cprelude or tr.uses_complex
                 head = per["float"].split(":=")[0]
                 for ln in per["float"].splitlines():       # auxiliary (loop) definitions may precede the function
                     if ln.startswith(f"def {py2lean.san(lname)} "):
@@ -149,6 +152,14 @@ def generate(package="numeric", spec_dir="specs"):
                         "tuple": " × " in head, "rejects": f"def {py2lean.san(lname)}_rejects" in per["float"],
                         "ntuple": head.count(" × ") + 1 if " × " in head else 0,
                         "pykinds": list(tr.pykinds), "lean_name": lname}
+                if sp.get("variant"):
+                    # complex variant: Lean arity counts a complex parameter twice; callers find it by position
+                    info["nparams"] = spec["nparams"] = len(tr.cur_sig)
+                    info["npyparams"] = len(fn.args.args)
+                    info["cpos"] = [i for i, a in enumerate(fn.args.args) if a.arg in sp.get("complex_params", ())]
+                    info["cret"] = tr.cret
+                    info["pykinds"] = None
+                    known[f"{name}@{sp['variant']}"] = info
                 by_key[key] = info
                 if lname == name:
                     known[name] = info
@@ -160,6 +171,8 @@ def generate(package="numeric", spec_dir="specs"):
         if prelude:
             for d in texts:
                 texts[d].insert(0, py2lean.Translator.PRELUDE[d].rstrip("\n") + "\n")
+        if cprelude:
+            texts["float"].insert(0, py2lean.Translator.PRELUDE["complex_float"].rstrip("\n") + "\n")
         outputs[mod] = (rel, texts)
     # constants
     creal = ["import Mathlib.Data.Real.Basic", "", "/-! GENERATED by tools/py2lean/gen_all.py from typhon/constants.py — do not edit.",
@@ -209,7 +222,15 @@ def generate(package="numeric", spec_dir="specs"):
         n = k["nparams"]
         suffix = "_d" if k.get("fun_params") else ""
         args = " ".join(f"a[{i}]!" for i in range(n))
-        if k.get("tuple"):
+        if k.get("cret") is not None and k["cret"] != "r":
+            # complex results cross the pipe as (re, im) pairs of doubles
+            kinds = k["cret"] if isinstance(k["cret"], list) else [k["cret"]]
+            comps = []
+            for i, ck_ in enumerate(kinds):
+                t = py2lean.Translator.proj("r", i, len(kinds))
+                comps += [f"({t}).re", f"({t}).im"] if ck_ == "c" else [t]
+            disp.append(f'  | "{name}", {n} => let r := TF.{py2lean.san(name)}{suffix} {args}; some #[{", ".join(comps)}]')
+        elif k.get("tuple"):
             comps = ", ".join(py2lean.Translator.proj("r", i, k["ntuple"]) for i in range(k["ntuple"]))
             disp.append(f'  | "{name}", {n} => let r := TF.{py2lean.san(name)}{suffix} {args}; some #[{comps}]')
         else:
